@@ -30,6 +30,9 @@ type c10Case struct {
 	NodeAnnot  string `json:"node_annotation"` // absent good malformed ghost neighbour
 	Setting    string `json:"setting"`         // none main-requests main-limits main-both side error-status
 	Affin      bool   `json:"affinity_assignment_mode"`
+	// TplAnnots: the pod template itself carries the controller's bookkeeping annotations with stale values (a template
+	// copied from a running pod): nodehash and templatehash
+	TplAnnots bool `json:"template_carries_stale_hash_annotations,omitempty"`
 }
 
 func c10Cases() []c10Case {
@@ -42,7 +45,10 @@ func c10Cases() []c10Case {
 						for _, na := range []string{"absent", "good", "malformed", "ghost", "neighbour"} {
 							for _, st := range []string{"none", "main-requests", "main-limits", "main-both", "side", "main-twice", "error-status"} {
 								for _, mode := range []bool{false, true} {
-									out = append(out, c10Case{nc, tr, af, ns, tol, na, st, mode})
+									out = append(out, c10Case{Containers: nc, TplRes: tr, Affinity: af, NodeSel: ns, Toleration: tol, NodeAnnot: na, Setting: st, Affin: mode})
+									if af == "none" && !tol {
+										out = append(out, c10Case{Containers: nc, TplRes: tr, Affinity: af, NodeSel: ns, Toleration: tol, NodeAnnot: na, Setting: st, Affin: mode, TplAnnots: true})
+									}
 								}
 							}
 						}
@@ -58,6 +64,9 @@ func qty(s string) resource.Quantity { return resource.MustParse(s) }
 
 func c10Template(c c10Case, image string) corev1.PodTemplateSpec {
 	t := w.Tpl(image)
+	if c.TplAnnots {
+		t.Annotations = map[string]string{v1.MD5NodeExtendedDaemonSetAnnotationKey: "5ta1e5ta1e", v1.MD5ExtendedDaemonSetAnnotationKey: "0ld0ld0ld"}
+	}
 	if c.Containers == 2 {
 		t.Spec.Containers = append(t.Spec.Containers, corev1.Container{Name: "side", Image: "sidecar"})
 	}
